@@ -12,6 +12,13 @@ argument values taken at call entry, never on derived caches):
                                     keep its length and stay an ndarray; master untouched
   Cluster.same_start                state post-condition: master untouched, every other signal changed by a constant,
                                     section averages (read back through the public get_section_average) equal the master's
+  fns.average.get_section_average   (the function behind Signal.get_section_average) with the section given as SAMPLE INDICES
+                                    (index=True): result == mean of the samples start..end-1 of the entry snapshot; signal
+                                    unchanged. After same_start on a window whose ends are sample times the section is read back
+                                    in the index form too and must equal the master's.
+The master of a cluster is whatever the public attribute `master_index` says at CALL time: it is chosen through the constructor
+(keyword or positional) and re-assigned after construction / in the middle of a history (int, np.int64/32/intp); every oracle
+reads it from the pre-state of the call.
 Relations between executions (theta=0/90/180/..., theta+180 negates, half-circle end points of a scan, offset+180, first
 result intact after a second call on other data, caller arrays and twin objects untouched) are checked by the driver after
 the related calls return.
@@ -61,7 +68,22 @@ RULE = ('rotation cases = (ns, we, dt) pairs: gen.record classes, amplitudes 1e-
         'a named ARRAY-valued attribute (values, velocity, displacement, fa_spectrum, fa_spectrum_abs, s_a, s_v, s_d; points '
         '1..5, keyword and positional) judged row by row; every ninth rotation case and every eighth cluster case uses '
         'special but valid scales (gen.special_scale / amplitudes 1e+-165..1e+-250: uniformly tiny or huge, 1e-150 vs 1e150 '
-        'inside one record, ripple on a large baseline, counts above 2**24) in float64 / list containers.')
+        'inside one record, ripple on a large baseline, counts above 2**24) in float64 / list containers. Round 3 (wave 6): the '
+        'master is chosen through the constructor (keyword / positional) in every case and, in 40% of the cases with >= 2 signals, '
+        'the cluster is BUILT with another master and `master_index` is re-assigned (int, np.int64, np.int32, np.intp) before the '
+        'first operation - for every mode, i.e. for time_match and same_start over the same 141 enumerated patterns; 30% of the '
+        'cases re-assign it once or twice more at the end of the history (also back to the constructor value), each followed by '
+        'same_start and/or time_match; deep copies AND pickle round trips of the cluster taken cold, warm or after the first j '
+        'operations (after a re-assignment too) and processed the same way; the same container processed a third time after a '
+        'cluster of another record (same or longer shape); sections given as sample indices (index=True: whole record, first / '
+        'last / one sample, random; keyword, positional, np.int64, np.bool_, module function) read on the members before and after '
+        'the operations and on rotation components / results; same_start windows at the ends of the admissible range (start=end=T, '
+        'end=T(1-1e-12), start=1e-300, start=1e-9 dt, the last two samples) and with np.float64 / np.int64 start / end; windows '
+        'ending beyond the record (refused: cluster must be unchanged); verbose=1 (output captured); assignment to the read-only '
+        '`values` of a member; silent (all-zero) master / member / rotation component; rotation angles next to the quadrants '
+        '(90k +- 1e-9, +- 1e-13, +- 1 ulp), +-3600, 5e-324, 1e-300, -1e-17; copy.copy (then only rebinding operations) / deepcopy / '
+        'pickle of warm components read, used as components and changed before / after the original; components of unequal '
+        'length or time step (refused: components unchanged); f(A); f(B); f(A) with B of another length.')
 ASSUMPTIONS = [
     'NaN-free real records; both components have the same length and dt',
     '|theta| <= 3600 degrees (the degree->radian rounding stays far below the 1e-12 relative allowance); a theta handed over '
@@ -92,6 +114,21 @@ ASSUMPTIONS = [
     'a Cluster of one signal is judged for same_start only (time_match needs two signals: probed, counted, not judged)',
     'the index convention of the section window (int(start/dt), int(end/dt)+1) is not judged here: same_start and the '
     'read-back use the same public get_section_average, so only their agreement is decided',
+    'the master of a cluster is the signal at the public attribute master_index AT CALL TIME (quantifier: "master_index in '
+    'range"), whether it was given to the constructor or assigned afterwards as int / numpy integer; assignments to '
+    'Cluster.master (the name), Cluster.dt and Cluster.names after construction are not driven: the statement does not say '
+    'what they mean and the clean code ignores them',
+    'a section given as sample indices (get_section_average(start, end, index=True), 0 <= start < end <= npts) is the samples '
+    'start..end-1 (Python slice, from the source / docstring "if False then start and end are considered values in time"); a '
+    'TIME window whose two ends are sample times (t == i*dt and t/dt == i exactly) is read as the closed interval: it holds '
+    'the samples i0..i1, which is also what makes the existing single-sample window start == end non-empty. Other time windows '
+    'keep the convention unjudged (previous assumption). index=True with the default end=-1, empty or negative index windows '
+    'are not driven',
+    'a same_start window that ends beyond the record is outside the quantifier: judged only for "refused completely" (if the '
+    'call raises, every signal, npts and master_index are bit-for-bit as before); if a version serves it, it is counted, not '
+    'judged. The same for rotation components of unequal length / time step',
+    'shallow copies (copy.copy) of a signal share the value buffer by definition: only rebinding operations (reset_values) are '
+    'driven on them; a shallow copy of a Cluster shares its signals and is not driven',
     'a cluster handed over as float32 stays float32 inside eqsig; same_start is then judged with 1e-5 instead of 1e-12 '
     '(time_match and the rotation functions are judged as for float64: shifts are exact, rotation promotes to float64)',
 ]
@@ -135,6 +172,20 @@ MIN_EVALS = {
         'time_match.overlap==master': 2800,
         'time_match.pad=edge-sample': 2200,
         'time_match.values-are-arrays': 6000,
+        # round 3
+        'cluster.member-values-assignment(all-or-nothing)': 100,
+        'cluster.third-run==first-run': 180,
+        'rotation.copied-component-memo==fresh': 500,
+        'rotation.copied-component==original': 800,
+        'rotation.copy-leaves-original-alone': 500,
+        'rotation.refused-call-leaves-components-unchanged': 85,
+        'rotation.third-call==first-call': 370,
+        'same_start.refused-call-leaves-cluster-unchanged': 240,
+        'same_start.section-average(index-form)==master': 2300,
+        'section-average(index=True)==mean(samples[start:end])': 12000,
+        'section-average.signal-unchanged': 12000,
+        'same_start.master-unchanged(master re-assigned after construction)': 650,
+        'time_match.master-unchanged(master re-assigned after construction)': 600,
     },
     'thorough': {
         'cluster.caller-arrays-unchanged': 21000,
@@ -189,6 +240,7 @@ RTOL_AVG_F32 = 1e-5   # the same for clusters stored in single precision (eqsig 
 G = 9.81
 
 CTX = None
+CTOR_MASTER = {}      # id(cluster) -> master index handed to the constructor (driver bookkeeping for the counter clauses)
 CURRENT = None        # complete description of the case the driver is executing (witness for the monitors)
 MEASURES = None       # key -> dict(parameter=|func=, parity, scale)
 
@@ -614,6 +666,8 @@ def _post_time_match(args, kwargs, result, pre):
     aft = [np.asarray(v, dtype=float) for v in after]
     ctx.check(np.array_equal(aft[m], vals[m]), 'time_match.master-unchanged', lambda: wit(signal=m),
               'time_match changed the master signal (index %d)' % m)
+    if CTOR_MASTER.get(id(c), m) != m and np.array_equal(aft[m], vals[m]):
+        ctx.ok('time_match.master-unchanged(master re-assigned after construction)')      # counter only; a failure is recorded above
     lagged_before = False
     ml = vals[m].tolist()
     for i in range(nsig):
@@ -679,6 +733,8 @@ def _post_same_start(args, kwargs, result, pre):
     aft = [np.asarray(v, dtype=float) for v in after]
     ctx.check(np.array_equal(aft[m], vals[m]), 'same_start.master-unchanged', lambda: wit(signal=m),
               'same_start(start=%r, end=%r) changed the master signal (index %d of %d)' % (start, end, m, nsig))
+    if CTOR_MASTER.get(id(c), m) != m and np.array_equal(aft[m], vals[m]):
+        ctx.ok('same_start.master-unchanged(master re-assigned after construction)')      # counter only; a failure is recorded above
     with attach.paused():
         try:
             avs = [float(s.get_section_average(start=start, end=end)) for s in sigs]
@@ -1950,6 +2006,8 @@ def run_cluster_case(eqsig, ctx, case):
         except Exception as e:
             ctx.exception('cluster.constructs', dict(case), e)
             return
+        CTOR_MASTER.clear()
+        CTOR_MASTER[id(c)] = kw['master_index']
         if twin is not None:
             twin_snap = [np.array(twin.values_by_index(i), copy=True) for i in range(len(vals))]
         members = [c.signal_by_index(i) for i in range(len(vals))]
